@@ -3,7 +3,7 @@ import itertools, json, os
 import vlib
 from vlib import hexs
 
-REQUIRED = ['findEol_valid_spec', 'findEol_valid_append', 'reader_chunk_independent_partial', 'wellformed_lines_independent_of_cuts', 'next_line_independent_of_state', 'discard_chunk_independent']
+REQUIRED = ['findEol_valid_spec', 'findEol_valid_append', 'reader_chunk_independent_partial', 'wellformed_lines_independent_of_cuts', 'next_line_independent_of_state', 'discard_chunk_independent', 'malformed_never_queued', 'legal_payload_queued_exactly', 'terminator_only_at_crlf_dot_crlf_counterexample']
 A, D, CR, LF = 0x61, 0x2e, 13, 10
 
 
@@ -106,6 +106,118 @@ def chunk_independence(ctx, results):
     return fails
 
 
+# ---------------------------------------------------------------------------------------------
+# DATA phase: where the message ends, what is queued, what is run as commands afterwards
+
+def parse_dataphase(out):
+    f = dict(x.split('=', 1) for x in out.split()[1:])
+    return {'verdict': out.split()[0], 'errs': int(f['errs']), 'first': f['first'], 'tail': f['tail'] == '1',
+            'msg': [] if f['msg'] == '-' else [vlib.unhex(x) for x in f['msg'].split(',')],
+            'cmds': [] if not f.get('cmds') else f['cmds'].split(',')}
+
+
+def data_streams(ctx):
+    """(payload stream incl. what follows the DATA phase, cut lists)"""
+    rng = ctx.rng
+    out = []
+    tail = [CR, LF, D, CR, LF] + list(b'NOOP\r\n')
+    n_max = 4 if ctx.quick() else 5
+    for n in range(0, n_max + 1):
+        for s in itertools.product((A, D, CR, LF), repeat=n):
+            body = list(s) + tail
+            cutsets = all_cuts(len(s) + 5) if len(s) + 5 <= 7 else None
+            cs = rng.sample(cutsets, 5) if cutsets else [[], [len(s)], [max(1, len(s) - 1), 1, 1, 1, 1], [1] * (len(s) + 5)]
+            out.append((body, cs))
+    # smuggling shapes and long lines
+    shapes = [b'x\n.\r\nMAIL FROM:<a@remote.example>\r\n', b'x\r.\r\nNOOP\r\n', b'x\n.\nNOOP\r\n', b'x\r\n.\rNOOP\r\n',
+              b'x\r\n.\nNOOP\r\n', b'a\r\n.\rX\r\n', b'a\nb\rc\r\n', b'a' * 1001 + b'\n.\r\nNOOP\r\n', b'a' * 1001 + b'x\ry\r\n',
+              b'a' * 999 + b'\r\n', b'.' + b'a' * 998 + b'\r\n', b'a' * 1000 + b'\r\n', b'x\ny\nz\r\n', b'x\n' + b'a' * 1001 + b'\r\n']
+    for sh in shapes:
+        body = list(sh + b'ok\r\n.\r\nNOOP\r\n')
+        n = len(body)
+        cs = [[], [1] * min(n, 40), [2, 1, 1, 1, 1], [n - 9, 1, 1], [1001, 1, 1], [1000, 2]]
+        out.append((body, cs))
+    return out
+
+
+def data_framing(ctx):
+    import session, smtpworld as W
+    b = session.build_qsmtpd(ctx)
+    if not b or not ctx.driver:
+        return
+    streams = data_streams(ctx)
+    cases = [(bytes(body), [c for c in cuts if c > 0]) for body, cs in streams for cuts in cs]
+    mouts = vlib.run_batch(ctx.driver, ['dataphase %s %s' % (hexs(st), ','.join(map(str, cu)) if cu else '-') for st, cu in cases])
+    pre = ['ehlo', 'mail', 'rcpt_alice']
+    lines, scs, metas = [], [], []
+    for (st, cu), mo in zip(cases, mouts):
+        m = parse_dataphase(mo)
+        if m['verdict'] == 'queued':
+            dv = 'D;ok'
+        elif m['verdict'] == 'refused':
+            dv = 'D;rf;500;edone' if m['first'] == 'EINVAL' else 'D;rf;0;e2big'
+        else:
+            dv = 'D;rf;0;edone'
+        toks = ['L%s;%s' % (W.hx(W.VOCAB[n][0]), W.VOCAB[n][1]) for n in pre] + ['L%s;%s' % (W.hx(b'DATA'), dv)]
+        for c in m['cmds']:
+            if c.startswith('L'):
+                toks.append('L%s;-' % c[1:])
+            elif c in ('EINVAL', 'E2BIG'):
+                toks.append('E' + c.lower())
+        toks.append('L%s;-' % W.hx(b'QUIT'))
+        lines.append('session %s %s' % (W.env_token(), ' '.join(toks)))
+        # client: lock-step up to DATA, then the stream in the given segments, then the end of the connection
+        items = session.lockstep([W.VOCAB[n][0] + b'\r\n' for n in pre] + [b'DATA\r\n'])
+        pos = 0
+        for c in cu:
+            items.append(('S', st[pos:pos + c])); pos += c
+        if pos < len(st):
+            items.append(('S', st[pos:]))
+        items += [('W',), ('S', b'QUIT\r\n'), ('W',)]
+        sc = W.base_scenario(); sc.items = items
+        scs.append(sc); metas.append(m)
+    smouts = vlib.run_batch(ctx.driver, lines)
+    rs = session.run_sessions(ctx, b, scs)
+    dis, fails = [], []
+    by_stream = {}
+    for (st, cu), m, smo, r in zip(cases, metas, smouts, rs):
+        case = 'data %s %s' % (hexs(st), ','.join(map(str, cu)) or '-')
+        model = W.parse_model(smo)
+        exp = [c for x in (model or [])[3:] for c in x['codes']]
+        got = r.codes()[4:]            # behind greeting, EHLO, MAIL, RCPT
+        queued = [m_ for m_, e in r.handoffs if e]
+        body = [q.split(b'\n\n', 1)[-1] if False else q for q in queued]
+        obs = '%s queued=%d' % ('+'.join(got), len(queued))
+        if model is None or got != exp or (len(queued) == 1) != (m['verdict'] == 'queued'):
+            dis.append((case, obs, 'model: %s queued=%d' % ('+'.join(exp), 1 if m['verdict'] == 'queued' else 0)))
+        elif queued:
+            # the queued text behind the trace header must be the model's lines (dot removed by smtp_data)
+            want = b''.join((l[1:] if l.startswith(b'.') else l) + b'\n' for l in m['msg'])
+            if not queued[0].endswith(want) or (want == b'' and False):
+                dis.append((case, 'queued text %r' % queued[0][-60:], 'model lines %r' % want[-60:]))
+        if r.fault:
+            fails.append((case, obs, 'fails memory-safety-or-crash: ' + r.fault[:150]))
+        malformed = m['errs'] > 0
+        if malformed and queued:
+            fails.append((case, obs, 'fails malformed-payload-queued'))
+        if m['tail'] and got[:1] and m['verdict'] == 'refused':
+            fails.append((case, obs, 'fails terminator-is-tail-of-malformed-line (the line "." that ended the DATA phase directly follows a stray CR/LF or the discard of an over-long line)'))
+        by_stream.setdefault(st, []).append((case, obs))
+    for st, lst in by_stream.items():
+        if len({o for _, o in lst}) > 1:
+            fails.append((lst[0][0], ' | '.join(sorted({o for _, o in lst}))[:300], 'fails chunk-independence of the DATA phase'))
+    ctx.cov['evaluations'] += len(cases)
+    ctx.cov['traces_validated_against_impl'] += len(cases)
+    ctx.cov['distinct_nontrivial'] += len(by_stream)
+    ctx.count('data-framing-sessions', len(cases))
+    ctx.count('data-framing-streams', len(by_stream))
+    vlib.handle_results(ctx, 'data-framing', 'model DataFraming.dataPhase + Session.step vs the real server in DATA', dis, fails, known_class=known_class)
+
+
+def known_class(f, case, impl, clause):
+    return f.get('id') == 'c05-terminator-after-stray-eol' and clause.startswith('fails terminator-is-tail-of-malformed-line')
+
+
 def run(ctx):
     vlib.lean_prepare(ctx, REQUIRED)
     h = vlib.build_harness(ctx, 'h_netio')
@@ -117,6 +229,7 @@ def run(ctx):
         fails = chunk_independence(ctx, res)
         fails += [(c, ho, 'fails memory-safety-or-crash') for c, ho, mo in res if ho.startswith('FAULT') or ho == 'HANG']
         vlib.handle_results(ctx, 'net_read-chunk-independence', 'net_read', [], fails)
+    data_framing(ctx)
     if not ctx.quick():
         vlib.leanchecker(ctx, ['QsmtpModel.Props.C05'])
     return vlib.finish(ctx, assumptions=['read(2)/poll(2) deliver the byte stream in order, in arbitrary positive chunks'])
